@@ -204,7 +204,8 @@ def setup_profile():
             if rt not in ["absolute", "relative"]:
                 print("Please choose 'absolute' or 'relative'.")
                 continue
-            pf["range_type"] = rt
+            # the fitting routines know "absolute" and "relative cp"
+            pf["range_type"] = "relative cp" if rt == "relative" else rt
         break
 
     print("\nSelect fitting interval:")
